@@ -424,3 +424,52 @@ pub fn u32field_ifft(a: &[u32]) -> Vec<u32> {
 pub fn u32field_hadamard_mul(a: &[u32], b: &[u32]) -> Vec<u32> {
     u32vec(u32poly(a).hadamard_mul(&u32poly(b)))
 }
+
+/// the quantity key generation compares with 1.17^2 q
+pub fn gram_schmidt_norm_squared(f: &[i16], g: &[i16]) -> f64 {
+    crate::math::verif_access::gram_schmidt_norm_squared(f, g)
+}
+
+// ---- HashToPoint's environment: the XOF output stream
+
+thread_local! {
+    static XOF_PREFIX: RefCell<Option<Vec<u8>>> = const { RefCell::new(None) };
+}
+
+/// Every `hash_to_point` call on this thread reads `bytes` first and the real SHAKE-256 output after them
+/// (until `uninstall_xof_prefix`). Lets a harness decide what the rejection sampler sees.
+pub fn install_xof_prefix(bytes: Vec<u8>) {
+    XOF_PREFIX.with(|p| *p.borrow_mut() = Some(bytes));
+}
+pub fn uninstall_xof_prefix() {
+    XOF_PREFIX.with(|p| *p.borrow_mut() = None);
+}
+
+/// Wrapper placed around HashToPoint's XOF reader.
+pub struct XofTap<R> {
+    inner: R,
+    prefix: Option<Vec<u8>>,
+    pos: usize,
+}
+
+impl<R: sha3::digest::XofReader> XofTap<R> {
+    pub fn wrap(inner: R) -> Self {
+        XofTap { inner, prefix: XOF_PREFIX.with(|p| p.borrow().clone()), pos: 0 }
+    }
+}
+
+impl<R: sha3::digest::XofReader> sha3::digest::XofReader for XofTap<R> {
+    fn read(&mut self, buffer: &mut [u8]) {
+        let mut done = 0;
+        if let Some(p) = &self.prefix {
+            while done < buffer.len() && self.pos < p.len() {
+                buffer[done] = p[self.pos];
+                done += 1;
+                self.pos += 1;
+            }
+        }
+        if done < buffer.len() {
+            self.inner.read(&mut buffer[done..]);
+        }
+    }
+}
